@@ -229,7 +229,7 @@ class Profile(HookHost):
         else:
             raise TypeError("either 'gap' or 'height' must be given")
 
-        if filling <= 0 or width <= 0 or height <= 0 or gap < 0:
+        if not (filling > 0 and width > 0 and height > 0 and gap >= 0) or not np.isfinite([filling, width, height, gap]).all():
             raise ValueError("argument value(s) out of range")
 
         if filling > 1:
